@@ -458,8 +458,13 @@ class Zeroconf(QuietLogger):
         call to `async_unregister_service` cannot be completed.
         """
         assert self.loop is not None
+        # Wait for the goodbye packets to be sent like register_service and
+        # update_service wait for their announcements: a close() right after
+        # this call would otherwise drop all but the first of them
         run_coro_with_timeout(
-            self.async_unregister_service(info), self.loop, _UNREGISTER_TIME * _REGISTER_BROADCASTS
+            await_awaitable(self.async_unregister_service(info)),
+            self.loop,
+            _UNREGISTER_TIME * _REGISTER_BROADCASTS,
         )
 
     async def async_unregister_service(self, info: ServiceInfo) -> Awaitable:
